@@ -58,6 +58,7 @@ from ..ast.fpyast import (
 )
 from ..ast.visitor import DefaultTransformVisitor
 from ..utils import Gensym
+from .rename_target import _RenameTargetInstance
 
 
 @dataclasses.dataclass
@@ -123,6 +124,12 @@ class _ReduceFusionInstance(DefaultTransformVisitor):
         iterable = self._visit_expr(comp.iterables[0], ctx)
         target = self._visit_binding(comp.targets[0], ctx)
         elt_expr = self._visit_expr(comp.elt, None)
+        # a comprehension target is local to the comprehension, a `for` target
+        # is not: give it a fresh name so the loop cannot clobber an outer variable
+        rename = {n: self.gensym.refresh(n) for n in sorted(target.names(), key=str)}
+        ren = _RenameTargetInstance(StmtBlock([]), rename)
+        target = ren._visit_binding(target, None)
+        elt_expr = ren._visit_expr(elt_expr, None)
 
         op = Or if is_any else And
         combine = op([Var(acc, e.loc), Var(elt, e.loc)], e.loc)
